@@ -233,3 +233,40 @@ def probe_inputs(ns, tid0, seed, per_model=14):
                            n_values_to_recompute=len(sim.values_to_recompute),
                            recomputed=recomputed_summary(ns, proj, sim)))
     return events
+
+
+def plain_history(ns, tid, seed, n_updates=3):
+    """undated updates (ordinary edits made through ModelingUpdate), accepted and refused ones, on one seeded system: after each
+    the identity-level state is projected (EFSim's Update action: all or nothing, closed graph)"""
+    rng = random.Random(seed)
+    model = gen.random_model(rng)
+    try:
+        live = efx.build(ns, model)
+    except Exception:
+        return []
+    proj = Projector(ns)
+    events = [dict(tid=tid, seq=0, ev="Baseline", seed=seed, flavour="plain", **proj.state(live))]
+    seq = 1
+    for _ in range(n_updates):
+        flavour = rng.choice(["input", "struct", "mixed", "invalid", "not-allowed", "recompute-fails", "link+recompute-fails"])
+        cl = change_list(ns, rng, model, live, flavour)
+        if cl is None:
+            continue
+        changes, edits, expect_ok = cl
+        outcome, exc = "updated", "none"
+        try:
+            ns.ModelingUpdate(changes)
+        except Exception as ex:   # noqa
+            outcome, exc = "raised", f"{type(ex).__name__}: {str(ex)[:120]}"
+        if outcome == "updated":
+            for e in edits:
+                model = efx.apply_edit_abstract(model, e)
+        st = proj.state(live)
+        reach = efx.reachable(model)
+        live_toks = sorted({tk for s, tk in st["tok"].items() if not s.endswith("|#") and s.split("|")[0] in reach})
+        events.append(dict(tid=tid, seq=seq, ev="PlainUpdate", seed=seed, flavour=flavour, outcome=outcome, exc=exc,
+                           expect_ok=expect_ok, live_toks=live_toks, **st))
+        seq += 1
+        if outcome == "raised" and expect_ok:
+            break           # an unexpected refusal: the abstract model no longer follows
+    return events
